@@ -103,9 +103,9 @@ def drive(exe, stream, args, env=None, timeout=600, max_restarts=80, flags=None)
         out = out.decode("utf-8", "replace")
         err = err.decode("utf-8", "replace")
         cur = None
-        for chunk in re.split(r"(?m)^(##BEGIN \d+|##END)\n", err):
+        for chunk in re.split(r"(?m)^(##BEGIN \S+|##END)\n", err):
             if chunk.startswith("##BEGIN "):
-                cur = int(chunk.split()[1])
+                cur = chunk.split()[1]
             elif chunk == "##END":
                 cur = None
             elif cur is not None and chunk.strip():
@@ -123,7 +123,7 @@ def drive(exe, stream, args, env=None, timeout=600, max_restarts=80, flags=None)
         if last is None:
             crashes.append((start, rc, V.tail(err, 25)))
             break
-        crashes.append((last, rc, V.tail(errs.get(last, err), 25)))
+        crashes.append((last, rc, err[-6000:]))
         restarts += 1
         if restarts > max_restarts or (timed_out and restarts > 3):
             break
